@@ -167,6 +167,7 @@ func init() {
 		n := int(st.concretize(tw(a[0]), "vAlloc size"))
 		o := st.newObj(n, "user", fmt.Sprintf("block(%d)", n))
 		o.user = true
+		o.ensure()
 		if callIns != nil {
 			o.site = st.callerPos(th)
 		}
